@@ -1446,6 +1446,185 @@ func (e *emitter) ipShape(repo string) {
 		leanStr(sep), count, bound, mask, strings.Join(dflt, ", "))
 }
 
+// ---------------------------------------------------------------- hidden state
+
+// name of the receiver type of a method
+func recvType(fd *ast.FuncDecl) string {
+	if fd.Recv == nil || len(fd.Recv.List) == 0 {
+		return ""
+	}
+	t := fd.Recv.List[0].Type
+	if s, ok := t.(*ast.StarExpr); ok {
+		t = s.X
+	}
+	if id, ok := t.(*ast.Ident); ok {
+		return id.Name
+	}
+	return "?recv"
+}
+
+
+// stateScan (same scan as xlate/c02): the package-level `var`s of a package and, per function, which of them
+// its body mentions and whether it writes them (assignment, ++/--, &x, append/copy/delete, method call on it)
+func stateScan(repo, dir string, only string) (vars []string, refs [][2]string) {
+	fset := token.NewFileSet()
+	pkgs, err := parser.ParseDir(fset, filepath.Join(repo, dir), func(fi os.FileInfo) bool {
+		return !strings.HasSuffix(fi.Name(), "_test.go") && (only == "" || fi.Name() == only)
+	}, 0)
+	if err != nil {
+		return []string{"?parse"}, nil
+	}
+	isVar := map[string]bool{}
+	var files []*ast.File
+	for _, p := range pkgs {
+		var names []string
+		for n := range p.Files {
+			names = append(names, n)
+		}
+		sort.Strings(names)
+		for _, n := range names {
+			files = append(files, p.Files[n])
+		}
+	}
+	for _, f := range files {
+		for _, d := range f.Decls {
+			if gd, ok := d.(*ast.GenDecl); ok && gd.Tok == token.VAR {
+				for _, sp := range gd.Specs {
+					for _, n := range sp.(*ast.ValueSpec).Names {
+						if n.Name != "_" {
+							isVar[n.Name] = true
+							vars = append(vars, n.Name)
+						}
+					}
+				}
+			}
+		}
+	}
+	sort.Strings(vars)
+	pkgLevel := func(id *ast.Ident) bool {
+		if !isVar[id.Name] {
+			return false
+		}
+		if id.Obj == nil {
+			return true // declared in another file of the package
+		}
+		if vs, ok := id.Obj.Decl.(*ast.ValueSpec); ok {
+			for _, f := range files {
+				for _, d := range f.Decls {
+					if gd, ok := d.(*ast.GenDecl); ok {
+						for _, sp := range gd.Specs {
+							if sp == ast.Spec(vs) {
+								return true
+							}
+						}
+					}
+				}
+			}
+		}
+		return false
+	}
+	rootIdent := func(e ast.Expr) *ast.Ident {
+		for {
+			switch x := e.(type) {
+			case *ast.Ident:
+				return x
+			case *ast.IndexExpr:
+				e = x.X
+			case *ast.SelectorExpr:
+				e = x.X
+			case *ast.StarExpr:
+				e = x.X
+			case *ast.ParenExpr:
+				e = x.X
+			case *ast.SliceExpr:
+				e = x.X
+			default:
+				return nil
+			}
+		}
+	}
+	for _, f := range files {
+		for _, d := range f.Decls {
+			fd, ok := d.(*ast.FuncDecl)
+			if !ok || fd.Body == nil {
+				continue
+			}
+			name := fd.Name.Name
+			if rt := recvType(fd); rt != "" {
+				name = rt + "." + name
+			}
+			written := map[string]bool{}
+			read := map[string]bool{}
+			selNames := map[*ast.Ident]bool{}
+			ast.Inspect(fd.Body, func(n ast.Node) bool {
+				switch x := n.(type) {
+				case *ast.SelectorExpr:
+					selNames[x.Sel] = true
+				case *ast.KeyValueExpr:
+					if id, ok := x.Key.(*ast.Ident); ok {
+						selNames[id] = true // struct literal field name
+					}
+				case *ast.AssignStmt:
+					for _, l := range x.Lhs {
+						if id := rootIdent(l); id != nil && pkgLevel(id) {
+							written[id.Name] = true
+						}
+					}
+				case *ast.IncDecStmt:
+					if id := rootIdent(x.X); id != nil && pkgLevel(id) {
+						written[id.Name] = true
+					}
+				case *ast.UnaryExpr:
+					if x.Op == token.AND {
+						if id := rootIdent(x.X); id != nil && pkgLevel(id) {
+							written[id.Name] = true
+						}
+					}
+				case *ast.CallExpr:
+					if fn, ok := x.Fun.(*ast.Ident); ok && (fn.Name == "append" || fn.Name == "copy" || fn.Name == "delete") && len(x.Args) > 0 {
+						if id := rootIdent(x.Args[0]); id != nil && pkgLevel(id) {
+							written[id.Name] = true
+						}
+					}
+					// a method called on a package-level variable (mutex, map wrapper, buffer) may change it
+					if sel, ok := x.Fun.(*ast.SelectorExpr); ok {
+						if id := rootIdent(sel.X); id != nil && pkgLevel(id) {
+							written[id.Name] = true
+						}
+					}
+				}
+				return true
+			})
+			ast.Inspect(fd.Body, func(n ast.Node) bool {
+				if id, ok := n.(*ast.Ident); ok && !selNames[id] && pkgLevel(id) {
+					read[id.Name] = true
+				}
+				return true
+			})
+			var names []string
+			for v := range read {
+				names = append(names, v)
+			}
+			sort.Strings(names)
+			for _, v := range names {
+				k := "r"
+				if written[v] {
+					k = "w"
+				}
+				refs = append(refs, [2]string{name, k + ":" + v})
+			}
+		}
+	}
+	sort.Slice(refs, func(i, j int) bool {
+		if refs[i][0] != refs[j][0] {
+			return refs[i][0] < refs[j][0]
+		}
+		return refs[i][1] < refs[j][1]
+	})
+	return
+}
+
+
 // ---------------------------------------------------------------- main
 
 func main() {
@@ -1519,6 +1698,25 @@ func main() {
 	// ---- util/iputil
 	e.ipShape(*repo)
 
+	// ---- hidden state: package-level variables and who touches them
+	{
+		var pvs, rws []string
+		for _, d := range [][2]string{{"util/hash", ""}, {"util/hexa32", ""}, {"util/bitutil", ""}, {"util/iputil", ""},
+			{"util/stringutil", "StringUtil.go"}, {"util/hll", "MurmurHash.go"}} {
+			vars, refs := stateScan(*repo, d[0], d[1])
+			var qs []string
+			for _, v := range vars {
+				qs = append(qs, leanStr(v))
+			}
+			pvs = append(pvs, fmt.Sprintf("(%s, [%s])", leanStr(d[0]), strings.Join(qs, ", ")))
+			for _, r := range refs {
+				rws = append(rws, fmt.Sprintf("(%s, %s, %s, %s)", leanStr(d[0]), leanStr(r[0]), leanStr(r[1][:1]), leanStr(r[1][2:])))
+			}
+		}
+		fmt.Fprintf(&e.w, "/-- package-level `var`s per package, and per function the package-level vars its body mentions\n    (r: read only, w: assigned / incremented / address taken / appended to / method called on it) -/\n")
+		fmt.Fprintf(&e.w, "def pkgVars : List (String × List String) :=\n  [%s]\n\n", strings.Join(pvs, ",\n   "))
+		fmt.Fprintf(&e.w, "def stateRefs : List (String × String × String × String) :=\n  [%s]\n\n", strings.Join(rws, ",\n   "))
+	}
 	fmt.Fprintf(&e.w, "def unknownCount : Nat := %d\n\nend %s\n", unknownCount, *ns)
 	if err := os.WriteFile(*out, []byte(e.w.String()), 0o644); err != nil {
 		die("%v", err)
